@@ -41,8 +41,8 @@ type runState struct {
 	steps     int
 	known     map[string]bool // literals already on the path condition
 	knownUp   *runState       // enclosing run state (merge regions)
-	pcSent    int // pc[:pcSent] is asserted in the solver
-	noCheck   int // >0 inside a merge region: no feasibility checks, nothing sent to the solver
+	pcSent    int             // pc[:pcSent] is asserted in the solver
+	noCheck   int             // >0 inside a merge region: no feasibility checks, nothing sent to the solver
 	curInstr  ssa.Instruction
 	depth     int
 	mapEpoch0 int // maps older than this must not be written (merge regions)
@@ -410,6 +410,7 @@ var noMergeAt = map[ssa.Instruction]bool{}
 var mergeForks int
 
 const mergeForkLimit = 24
+
 var mapEpoch int
 
 // Results of merged calls are cached across paths: the same function on the same
